@@ -2,37 +2,37 @@ import Clem.Proofs.T4Perm
 import Mathlib.Algebra.Order.Field.Rat
 
 /-!
-# C03 — independence from the listing order (partial) and the negation witnesses
+# C03 — independence from the listing order, and the negation witnesses
 
 Full statement (property text): *"the result … depends neither on the order in which deltas are
-listed …"*, i.e. `∀ inp ds', inp.deltas ~ ds' → t4 … inp = t4 … {inp with deltas := ds'}` — for the
-code's own arithmetic and for every target naming.
+listed …"*, i.e. `∀ inp ds', inp.deltas ~ ds' → t4 … {inp with deltas := ds'} = t4 … inp`.
 
-That is FALSE of the current code, in two ways:
-* colliding string keys (`id` / `attr` containing `:`): `C03_perm_fails_on_collision` below
-  (machine-checked, same definitions, carrier `ℚ`);
-* IEEE addition is not associative: three duplicates `[1e16, 1.0, -1e16]` approve `0.0`, listed as
-  `[1e16, -1e16, 1.0]` they approve `0.3`.  `Float` is opaque to the kernel, so this witness is not
-  a Lean term: it is `corpus/C03/t4__float_sum.json`, reproduced on the real code AND on this model
-  at `Float` on every run (known finding `C03:t4:order.float-sum`).
+With the fix `proposed_fixes/C03_combine_sum_canonical_order.diff` (`_combine_by_ckey` sums each
+key's contributions in ascending order of value) this is proved for EVERY number carrier whose `≤` is
+a total order — no associativity, no exact arithmetic — so it covers the `Float` instance the driver
+runs on NaN-free inputs (up to the sign of zero, which `sorted` cannot see; the harness checks the
+real code bit-for-bit on permutations, including `[1e16, 1.0, -1e16]`, a regression case in
+`corpus/C03/t4__float_sum.json`).
 
-What IS proved, for all inputs: under exact arithmetic (ordered field) and injective string keys the
-whole `T4Result` is invariant under permutations of the delta list.
+One hypothesis remains and is necessary: injective string keys.  Ids/attrs containing `:` can make
+two distinct targets share `f"{kind}:{id}:{attr}"`; then the first listed wins
+(`C03_perm_fails_on_collision`, known finding `C03:t4:order.ckey-collision`).
 -/
 set_option linter.unusedSectionVars false
 
 namespace Clem.T4
 open Clem.Py
 
-section OrderedField
-variable {α : Type} [Field α] [LinearOrder α] [IsStrictOrderedRing α]
+section AnyCarrier
+variable {α : Type} [Num α]
 
-/-- Permutation invariance of the whole result — partial: exact arithmetic + `CkeyInjective`. -/
-theorem C03_perm_invariant_partial (sqrt : α → α) (thr : α) (inp : Input α) (ds' : List (Delta α))
-    (hp : inp.deltas.Perm ds') (hinj : CkeyInjective inp.deltas) :
+/-- Permutation invariance of the whole `T4Result`, for any totally ordered carrier — partial only
+in `CkeyInjective` (full statement above; negation witness below). -/
+theorem C03_perm_invariant_partial (ho : LeTotalOrder α) (sqrt : α → α) (thr : α) (inp : Input α)
+    (ds' : List (Delta α)) (hp : inp.deltas.Perm ds') (hinj : CkeyInjective inp.deltas) :
     t4 sqrt thr { inp with deltas := ds' } = t4 sqrt thr inp := by
   have hA : afterCd { inp with deltas := ds' } = afterCd inp := by
-    simp only [afterCd, combine_perm_invariant hp hinj]; rfl
+    simp only [afterCd, combine_perm_invariant ho hp hinj]; rfl
   have hC : clamped { inp with deltas := ds' } = clamped inp := by simp only [clamped, hA]
   have hS : scaled sqrt { inp with deltas := ds' } = scaled sqrt inp := by simp only [scaled, hC]
   have hK : kept sqrt { inp with deltas := ds' } = kept sqrt inp := by simp only [kept, hS]
@@ -41,10 +41,17 @@ theorem C03_perm_invariant_partial (sqrt : α → α) (thr : α) (inp : Input α
   rfl
 
 /-- … in particular `_combine_by_ckey` itself. -/
-theorem C03_combine_perm_invariant_partial {ds ds' : List (Delta α)} (hp : ds.Perm ds')
-    (hinj : CkeyInjective ds) : combine ds = combine ds' := combine_perm_invariant hp hinj
+theorem C03_combine_perm_invariant_partial (ho : LeTotalOrder α) {ds ds' : List (Delta α)}
+    (hp : ds.Perm ds') (hinj : CkeyInjective ds) : combine ds = combine ds' :=
+  combine_perm_invariant ho hp hinj
 
-end OrderedField
+end AnyCarrier
+
+/-- at an ordered field the order hypothesis is free: only `CkeyInjective` is left -/
+theorem C03_perm_invariant_field {α : Type} [Field α] [LinearOrder α] [IsStrictOrderedRing α]
+    (sqrt : α → α) (thr : α) (inp : Input α) (ds' : List (Delta α)) (hp : inp.deltas.Perm ds')
+    (hinj : CkeyInjective inp.deltas) : t4 sqrt thr { inp with deltas := ds' } = t4 sqrt thr inp :=
+  C03_perm_invariant_partial leTotalOrder_field sqrt thr inp ds' hp hinj
 
 /-! ### negation witnesses (carrier `ℚ`, `decide +kernel` on the model's own definitions) -/
 
@@ -85,16 +92,37 @@ theorem C03_perm_unrestricted_false :
 
 def wS (v : Int) : Delta Int := ⟨[110], [97], [119], v, none, none⟩
 
-/-- **Exact arithmetic is a necessary hypothesis** of `C03_perm_invariant_partial`: over a carrier
-whose addition is not associative, three duplicates of ONE target (injective keys) merge to
-different values in different listing orders — the shape of the float witness
-`[1e16, 1.0, -1e16]` ↦ `0.0` vs `[1e16, -1e16, 1.0]` ↦ `1.0`, which the harness reproduces on the real
-code at `Float`. -/
-theorem C03_perm_needs_exact_arithmetic :
+theorem satNum_leTotalOrder : @LeTotalOrder Int satNum :=
+  @LeTotalOrder.mk Int satNum
+    (fun a b => by
+      show decide (a ≤ b) = true ∨ decide (b ≤ a) = true
+      simpa using Int.le_total a b)
+    (fun a b c => by
+      show decide (a ≤ b) = true → decide (b ≤ c) = true → decide (a ≤ c) = true
+      simpa using @Int.le_trans a b c)
+    (fun a b => by
+      show decide (a ≤ b) = true → decide (b ≤ a) = true → a = b
+      simpa using @Int.le_antisymm a b)
+
+/-- Why the fix was needed (kept as a regression witness about the LEGACY merge, `combineAcc`, which
+adds contributions in listing order): over a carrier whose addition is not associative, three
+duplicates of ONE target merge to different values in different listing orders — the shape of the
+float witness `[1e16, 1.0, -1e16]`.  The repaired `combine` gives the same value for both orders,
+although `satNum` is not associative. -/
+theorem C03_legacy_merge_needed_exact_arithmetic :
     [wS 10, wS 1, wS (-10)].Perm [wS 10, wS (-10), wS 1] ∧
-    (@combine Int satNum [wS 10, wS 1, wS (-10)]).map (·.delta) = [0] ∧
+    (@combineAcc Int satNum [wS 10, wS 1, wS (-10)]).map (·.delta) = [0] ∧
+    (@combineAcc Int satNum [wS 10, wS (-10), wS 1]).map (·.delta) = [1] ∧
+    (@combine Int satNum [wS 10, wS 1, wS (-10)]).map (·.delta) = [1] ∧
     (@combine Int satNum [wS 10, wS (-10), wS 1]).map (·.delta) = [1] :=
-  ⟨(List.Perm.swap _ _ _).cons _, by decide, by decide⟩
+  ⟨(List.Perm.swap _ _ _).cons _, by decide, by decide, by decide, by decide⟩
+
+/-- non-vacuity of `C03_perm_invariant_partial` at a NON-associative carrier -/
+example : @combine Int satNum [wS 10, wS 1, wS (-10)] = @combine Int satNum [wS 10, wS (-10), wS 1] :=
+  @C03_combine_perm_invariant_partial Int satNum satNum_leTotalOrder _ _ ((List.Perm.swap _ _ _).cons _)
+    (by intro a ha b hb _
+        simp at ha hb
+        rcases ha with rfl | rfl | rfl <;> rcases hb with rfl | rfl | rfl <;> exact ⟨rfl, rfl, rfl⟩)
 
 /-- Observation (DESIGN §4; consistent with the property's own pipeline order, so NOT alarmed):
 merging happens before the cooldown filter, and the merged delta records the *minimum* `op_idx`.
@@ -117,6 +145,6 @@ example : CkeyInjective [wA, wA] ∧ t4 id (999999/1000000) (wInput [wA, wA] [])
     simp at ha hb
     subst ha; subst hb
     exact ⟨rfl, rfl, rfl⟩
-  exact ⟨hinj, (C03_perm_invariant_partial id _ (wInput [wA, wA] []) [wA, wA] (List.Perm.refl _) hinj).symm⟩
+  exact ⟨hinj, (C03_perm_invariant_field id _ (wInput [wA, wA] []) [wA, wA] (List.Perm.refl _) hinj).symm⟩
 
 end Clem.T4
